@@ -32,6 +32,8 @@ def variants_of(prog, rng, tier):
     for q in progs.permutations_of(prog, limit=3, rng=rng)[:2]:
         out.append(("permute-declarations", q, {}))
     out.append(("rename-consistently", progs.rename_consistently(prog), {}))
+    for q in rewrites.alpha_rename_each(prog)[:4 if tier == "quick" else 12]:
+        out.append(("rename-one-binder", q, {}))
     m = prog["main"]
     eps = rewrites.expr_paths(prog["mods"][m])
     rng.shuffle(eps)
@@ -110,6 +112,9 @@ def run(tier):
     rr = run_tlc("DenMC", "Prog_recinst.cfg", workers=4, timeout=900, java_opts=["-Xss512m"])
     chk.add_tlc(rr)
     extra = [{"prog": c["prog"], "pos": "recinst", "shape": str(i), "ind": "direct"} for i, c in enumerate(rr.cases)]
+    rdyn = run_tlc("DenMC", "Prog_dynscope.cfg", workers=4, timeout=900, java_opts=["-Xss512m"])
+    chk.add_tlc(rdyn)
+    extra += [{"prog": c["prog"], "pos": "dynscope", "shape": str(i), "ind": "direct"} for i, c in enumerate(rdyn.cases)]
     comp = gen.programs(common.seed() * 1000 + 5, 120 if tier == "quick" else 1500, p_bad=0.0)
     extra += [{"prog": p, "pos": "composite", "shape": str(i), "ind": "direct"} for i, p in enumerate(comp)]
     nsel = 120 if tier == "quick" else 1200
@@ -169,8 +174,8 @@ def run(tier):
     chk.cov["evaluations"] = pairs
     chk.cov["distinct_nontrivial"] = len(sel) + len(groups)
     chk.notes["pairs_per_rewrite"] = per_rewrite
-    chk.cov["rule"] = ("accepted members of the PosShape/FnPos families (a seeded sample) x rewrites {3 trivia styles, 2 permutations, consistent renaming, parenthesise all / "
-                       "one, name-with-let, wrap-in-function, abstract-subterm (beta-expansion), inline-let, move-to-module}; the same on the RecInst family and on seeded random composite programs (those the compiler accepts) + for every (position, shape) the let / identity-function / imported variants "
+    chk.cov["rule"] = ("accepted members of the PosShape/FnPos families (a seeded sample) x rewrites {3 trivia styles, 2 permutations, consistent renaming, renaming of one binder at a time (alpha-conversion), parenthesise all / "
+                       "one, name-with-let, wrap-in-function, abstract-subterm (beta-expansion), inline-let, move-to-module}; the same on the RecInst and DynScope families and on seeded random composite programs (those the compiler accepts) + for every (position, shape) the let / identity-function / imported variants "
                        "against the direct one; evaluations = (original, rewritten) pairs compiled and compared; non-trivial = distinct originals")
     if cases:
         chk.sample({"original": cases[0]["files"], "rewritten_example": cases[min(5, len(cases) - 1)]["files"]})
